@@ -2,6 +2,8 @@ package props
 
 import (
 	"fmt"
+	"google.golang.org/grpc/codes"
+	"google.golang.org/grpc/status"
 	"math/rand"
 	"strings"
 	"unicode/utf8"
@@ -65,7 +67,8 @@ func genMetaScript(r *rand.Rand, kind Kind, half bool) *Script {
 	if r.Intn(4) == 0 {
 		// repeated keys across calls must merge in call order
 		h = append([]Op{{Op: "sethdr", MD: metadata.MD{"rep-key": {"h1", "h2"}}}, {Op: "settrl", MD: metadata.MD{"rep-key": {"t1"}}}}, h...)
-		h = append(h, Op{Op: "settrl", MD: metadata.MD{"rep-key": {"t2", "t3"}, "late-bin": {"\x00\xff"}}})
+		// (binary values that are not valid UTF-8 run into F-C03-1 over HTTP: only a third of these scripts use one)
+		h = append(h, Op{Op: "settrl", MD: metadata.MD{"rep-key": {"t2", "t3"}, "late-bin": {pick(r, "\x00\xff", "\x00\x7f", "\x01\x02")}}})
 	}
 	// in a full-duplex handler the receive part stays first (keeps the script deadlock-free)
 	s.Handler = append(recvs, h...)
@@ -272,10 +275,13 @@ func checkC03(e *core.Env) {
 				}
 				continue
 			}
-			run, ok, _ := execScript(c, sc, nil)
+			run, ok, dump := execScript(c, sc, nil)
 			if !ok {
-				e.Inconclusive("C03 %s %s: watchdog", c.Name, sc.Shape())
+				hangVerdict(e, "C03", cs, c, sc, run, dump)
 				continue
+			}
+			if p := reachProblem(cs, c, sc, run); p != "" {
+				e.Violate(fmt.Sprintf("%s/%s/never-reached-handler", c.Name, kindClass(kind)), p, witness(run))
 			}
 			nmeta := len(sc.ReqMD)
 			for _, o := range sc.Handler {
@@ -295,7 +301,9 @@ func checkC03(e *core.Env) {
 							wantT = mdMerge(wantT, o.MD)
 						}
 					}
-					if hasNonUTF8Bin(wantT) {
+					// F-C03-1 shows as a loud failure (Internal) of the whole call; anything else on such a script
+					// (a call that succeeds with trailers missing, merged wrongly, ...) is not that finding
+					if out := run.ClientOutcome(); hasNonUTF8Bin(wantT) && out.Seen && !out.OK && status.Code(out.Err) == codes.Internal {
 						sig = fmt.Sprintf("%s/stream/non-utf8-bin-trailer/%s", c.Name, p[0])
 					}
 				}
